@@ -48,7 +48,9 @@ def judgeMutex : Judge := liftJudge fun input obs => do
   -- configuration of the model: thread g uses object (member, obj), created on session member
   let objId (g : Nat) : Nat := match gs[g]? with | some (m, o) => m * 8 + o | none => 0
   let cfg : Cfg := { obj := objId, sess := fun o => o / 8 }
-  let modelOK := (run cfg init (scheduleOf evs)).isSome
+  -- the replay that drops failed attempts (sound: they are state-neutral) and, for every failed attempt, a
+  -- position between the goroutine's previous event and the `failed` stamp at which it was enabled
+  let modelOK := (run cfg init (scheduleOf evs)).isSome && failedReplayOK cfg (failingGs evs) init [] evs
   let excl := exclusiveTrace none evs && maxInside ≤ 1
   let tags := [s!"members:{members}"] ++ (if fails > 0 then ["timeouts"] else ["no-timeouts"])
     ++ (if multi then ["neg-config:several-objects-per-member"] else [])
